@@ -349,14 +349,21 @@ def run_session(case):
 
             def prompt(self, args=None):
                 n = st["nih"]
-                if blocking_prompt:                 # PasswordDialog.prompt() asks and waits by itself
-                    U(16, [self.i, n])
+                if blocking_prompt:                 # PasswordDialog.prompt() asks and waits by itself, then close()s
+                    U(16, [self.i, n]); self.waiting = n
                 p = super().prompt(args)
-                if blocking_prompt:
-                    U(13, [self.i, n])
+                self.got()
                 if p is not None:
                     U(18, [self.i, args or 0, n])
                 return p
+
+            def got(self):
+                if getattr(self, "waiting", None) is not None:
+                    U(13, [self.i, self.waiting]); self.waiting = None
+
+            def close(self):
+                self.got()                          # the wait of PasswordDialog.prompt() is over when it calls close()
+                super().close()
 
             def input(self, args, key):
                 U(7, [self.i, args or 0], key)
